@@ -47,7 +47,9 @@ func checkWriter(c Case) string {
 	}
 	fsx.WriteTree(dir, orig)
 	var err error
-	if p, msg := run.Safe(func() { err = par1.Create(filepath.Join(dir, "set.par"), paths, par1.CreateOptions{NumParityFiles: c.NVol}) }); p {
+	if p, msg := run.Safe(func() {
+		err = par1.Create(filepath.Join(dir, "set.par"), paths, par1.CreateOptions{NumParityFiles: c.NVol})
+	}); p {
 		return "Create panicked: " + msg
 	}
 	if err != nil {
